@@ -59,6 +59,14 @@ func (st *SplitTracker) TrackAssigned(shards []SourceSplitterShard) {
 	}
 }
 
+// LastAssigned returns the last split ID that was marked assigned.
+func (st *SplitTracker) LastAssigned() string {
+	st.mu.Lock()
+	defer st.mu.Unlock()
+
+	return st.LastAssignedSplitID
+}
+
 // RemoveSplits removes the given splits from tracking.
 func (st *SplitTracker) RemoveSplits(splitIDs []string) {
 	st.mu.Lock()
